@@ -2833,11 +2833,75 @@ def rule_no_swallowed_eof(out, tier):
         out.undecided(rid, "anchor/functions scanned", rel, "only %d function bodies found: the headers were not seen" % nfn)
 
 
+
+def rule_ndjson_line_read_outcome(out, tier):
+    rid = "NL3"
+    out.rule(rid, "detail/ndjson/serializers.h ReadProtocolValue (analysed when nlohmann/json.hpp is installed): the end of the input is decided by the outcome of the line read itself — "
+                  "every `getline` call has its result tested (it is not a discarded statement), and `eof()` is not consulted: eofbit is also set by a SUCCESSFUL read of a last line "
+                  "that has no newline, i.e. of a line that was cut off", 0)
+    roots, rc, err = dump_ndjson(out.repo, "serializers.h")
+    rel = INC + "/detail/ndjson/serializers.h"
+    if roots is None:
+        out.stats["NL3_not_analysed"] = err
+        return
+    if rc != 0 or not roots:
+        out.undecided(rid, "clang/ndjson/serializers.h", rel, "clang could not parse the header: " + err[-300:])
+        return
+    for r in roots:
+        annotate_lines(r)
+    fn = dict(free_functions(roots)).get("ReadProtocolValue")
+    if fn is None:
+        out.undecided(rid, "ReadProtocolValue", rel, "not found")
+        return
+
+    def name_of(x):
+        if isinstance(x, dict):
+            if x.get("kind") == "DeclRefExpr" and (x.get("referencedDecl") or {}).get("name"):
+                return x["referencedDecl"]["name"]
+            if x.get("kind") == "MemberExpr":
+                return x.get("name")
+            for c in x.get("inner", []) or []:
+                r = name_of(c)
+                if r:
+                    return r
+        return None
+
+    found = []
+
+    def visit(n, parent):
+        if not isinstance(n, dict):
+            return
+        if n.get("kind") in ("CallExpr", "CXXMemberCallExpr") and n.get("inner"):
+            nm = name_of(n["inner"][0])
+            if nm in ("getline", "eof"):
+                found.append((nm, n, parent))
+        for c in n.get("inner", []) or []:
+            visit(c, n)
+
+    visit(fn, None)
+    k = 0
+    for nm, n, parent in found:
+        k += 1
+        where = "%s:%d" % (rel, n.get("_line", fn.get("_line", 0)))
+        if nm == "getline":
+            discarded = parent is not None and parent.get("kind") in ("CompoundStmt", "DoStmt", "WhileStmt", "ForStmt")
+            # a call that is a direct child of a statement list (or the body of a loop) is a discarded expression statement;
+            # as a condition clang wraps it in an ImplicitCastExpr / UnaryOperator / CXXOperatorCallExpr
+            out.check(not discarded, rid, "ReadProtocolValue/getline#%d outcome tested" % k, where, "the result of the read is tested",
+                      "the result of `getline` is discarded: whether a line was read is then judged by something else (eof(), an empty string) — a last line without a newline, i.e. a line "
+                      "that was cut off, sets eofbit although it was extracted, and is taken for the end of the input instead of being handed to the JSON parser (which rejects it)")
+        else:
+            out.bad(rid, "ReadProtocolValue/eof()#%d" % k, where,
+                    "`eof()` is consulted to decide whether there is more input: eofbit is also set by the successful extraction of a final line that lacks its newline; a truncated stream "
+                    "then ends 'normally' for a stream step (ReadProtocolValue returns false, Close() passes)")
+    if not any(nm == "getline" for nm, _, _ in found):
+        out.undecided(rid, "ReadProtocolValue/getline", "%s:%d" % (rel, fn.get("_line", 0)), "no getline call found: how lines are read is not understood")
+
 RULES = {
-    "C16": [rule_coded_stream_bounds, rule_blocks, rule_fill_loops_end, rule_stream_reads_counted, rule_no_swallowed_eof, rule_ndjson_lookahead, rule_ndjson_presence_by_key, rule_varint_decoders_agree],
+    "C16": [rule_ndjson_line_read_outcome, rule_coded_stream_bounds, rule_blocks, rule_fill_loops_end, rule_stream_reads_counted, rule_no_swallowed_eof, rule_ndjson_lookahead, rule_ndjson_presence_by_key, rule_varint_decoders_agree],
     "C01": [rule_varint_decoders_agree, rule_coded_stream_bounds, rule_serializer_twins, rule_output_order, rule_reader_overwrites, rule_trivial_trait_set, rule_blocks, rule_zigzag_width, rule_integer_dispatch, rule_shift_in_destination_type, rule_varint_constants],
     "C15": [rule_cxx_header, rule_ndjson_header, rule_no_static_locals_from_arguments],
-    "C02": [rule_ndjson_lookahead, rule_ndjson_presence_by_key, rule_ndjson_field_omission, rule_ndjson_header, rule_no_static_locals_from_arguments],
+    "C02": [rule_ndjson_line_read_outcome, rule_ndjson_lookahead, rule_ndjson_presence_by_key, rule_ndjson_field_omission, rule_ndjson_header, rule_no_static_locals_from_arguments],
     "C14": [rule_integer_dispatch],
     "C04": [rule_cxx_header, rule_output_order, rule_ndjson_header, rule_no_static_locals_from_arguments],
     "C03": [rule_blocks, rule_ndjson_lookahead, rule_ndjson_presence_by_key, rule_varint_decoders_agree, rule_output_order, rule_reader_overwrites, rule_integer_dispatch, rule_shift_in_destination_type, rule_zigzag_width, rule_varint_constants],
